@@ -11,6 +11,7 @@ Definition run (fam : bytes) (c : value) : value :=
   else if beq fam (B "bytesprim") then run_bytesprim c
   else if beq fam (B "split") then run_split c
   else if beq fam (B "sock") then run_sock c
+  else if beq fam (B "socknet") then run_socknet c
   else if beq fam (B "srv") then run_srv c
   else if beq fam (B "srvm") then run_srvm c
   else if beq fam (B "copier") then run_copier c
@@ -45,7 +46,7 @@ Definition chk (prop fam : bytes) (c o : value) : bool :=
   else if beq prop (B "C17") then chk_C17 fam c o
   else if beq prop (B "C14") then (if beq fam (B "copier") then chk_C14 c o else true)
   else if beq prop (B "C18") then (if beq fam (B "sock") then chk_C18 c o else true)
-  else if beq prop (B "C19") then (if beq fam (B "sock") || beq fam (B "srv") then chk_C19_sock c o else true)
+  else if beq prop (B "C19") then (if beq fam (B "sock") || beq fam (B "srv") then chk_C19_sock c o else if beq fam (B "socknet") then chk_C19_net c o else true)
   else true.
 
 (* decimal I/O for the driver (arbitrary precision) *)
